@@ -113,7 +113,7 @@ pub struct BStats {
 }
 
 pub fn run_case(case: &BatchCase) -> Result<BStats, String> {
-    raindb::verif::set_level_base_bytes(crate::engine::level_base_for(&case.cfg));
+    crate::engine::set_level_limits(crate::engine::level_code_for(&case.cfg));
     let fs = Arc::new(MemFs::new(false));
     let db = Arc::new(DB::open(options(&fs, &case.cfg)).map_err(|e| format!("open failed: {e:?}"))?);
     let nw = case.writers.len().min(case.groups.len());
